@@ -278,6 +278,10 @@ int world_new_sessions(world_t *w)
             return -1;
         }
     }
+    if (c->dtls_cmulti)
+    {
+        co.versionFlag = SSL_FLAGS_TLS_1_2 | SSL_FLAGS_TLS_1_1 | SSL_FLAGS_DTLS;
+    }
     so.userPtr = &w->s[1];
     co.userPtr = &w->s[0];
     if (c->tickets)
